@@ -78,7 +78,15 @@ type Action struct {
 	// wait-loop check interval) that elapses by itself; the next action must then be Stop or
 	// Elapse of the same queue (RunScenario clears the flag otherwise)
 	Short bool `json:"short,omitempty"`
+	// Idle only: the operator is left alone for Ms milliseconds (real time: workers poll their
+	// empty queues, wait in handlers and delays).  Not an action of the model: rendered as a tick
+	// of the crontab IdleCron, which no binding uses (a stutter step, C17_time_is_stutter)
+	Ms int `json:"ms,omitempty"`
 }
+
+// IdleCron numbers a crontab no generated configuration uses.
+const IdleCron = 999
+
 type Input struct {
 	Cfg  []Hook   `json:"cfg"`
 	Acts []Action `json:"acts"`
@@ -150,6 +158,7 @@ func GroupName(n int) string {
 	}
 	return "g" + strconv.Itoa(n)
 }
+
 // CronName: crontab number c as a crontab that never fires by itself (the 30th of February),
 // so that the operator's real cron scheduler can run; ticks are injected by the harness.
 func CronName(c int) string { return fmt.Sprintf("%d 0 30 2 *", c) }
@@ -949,6 +958,10 @@ func (s *Sim) Do(a Action) StepObs {
 				s.Op.KubeEventsManager.Ch() <- ev
 				s.sentinelKube()
 			}
+		}
+	case "Idle":
+		if s.booted {
+			time.Sleep(time.Duration(a.Ms) * time.Millisecond)
 		}
 	case "Elapse":
 		s.boMu.Lock()
